@@ -75,7 +75,9 @@ CHECKS["C06"] = {
 }
 
 CHECKS["C07"] = {
-    "text": "Partial by nature (DESIGN.md section 8). Proved: the constant interpreter terminates on every code body (C07_interp_total); the other modelled "
+    "text": "Partial by nature (DESIGN.md section 8). Proved: the EXPRESSION layer of the translator model (typedexpr.rs walk_expr + every tir/builder.rs visitor it "
+            "reaches) never panics, for every expression, class environment and builder state with an open current block -- the region invariant of the block "
+            "numbering, by induction over expressions through the builder's state monad (C07_expressions_never_panic); the constant interpreter terminates on every code body (C07_interp_total); the other modelled "
             "passes carry their own totality theorems (C17_terminates, C12_grid/C12_box: no negative index, C10_unique: the name search always succeeds). "
             "Checked against the code on every run: the model's Ok / Err / Panic prediction for tir::build* equals the implementation's on generated programs "
             "and single-edit mutants (so a new panic in the expression layer breaks the correspondence with the program as the replay). Searched, not proved: "
